@@ -32,6 +32,8 @@ def main():
             d = _json.load(open(a.replay))
             if d.get('kind') == 'compile':
                 return C.replay_compile(d)
+            if d.get('kind') == 'diff':
+                return C.replay_diff(d)
             return D.replay_file(a.replay, C.exe_for_replay)
         if a.determinism:
             return C.determinism(a.determinism, seed, a.runs or 2000)
